@@ -77,6 +77,10 @@ CHECKS['C14'] = dict(level='exploration', design='6/C14',
     technique='property-based testing (Hypothesis): semantic round trip - the emitted (POS, REF, ALT) applied to the gene sequence must equal the gene re-extracted from the chromosome carrying the generated genomic event (independent model of coordinates and strands); exact expected record set for parseREDItools from re-implemented threshold predicates',
     text='Generated genomic events (SNV, deletions, insertions in three VEP conventions, substitutions of >= 3 nt) at positions over the whole transcript span incl. its ends, exon edges and introns, on both strands, are written as VEP rows and parsed; REDItools rows with counts around every threshold are parsed; outputs are compared with the model.',
     note='Events within 2 nt of the transcript ends may be rejected or converted (if converted, correctly); events reaching beyond the transcript must be rejected. VEP alleles are taken to be on the forward genomic strand.')
+CHECKS['C15'] = dict(level='exploration', design='6/C15',
+    technique='property-based testing (Hypothesis): exact expected record set per row (eligible transcript pairs, thresholds, unknown genes, antisense) + semantic equality of the denoted fusion sequence with one built directly from the genomic breakpoints (independent model) + end-to-end differential against the definitional fusion digest through callVariant + tally oracle',
+    text='Generated fusion rows in the STAR-Fusion, FusionCatcher and Arriba formats over generated multi-isoform references (all strand combinations, exonic / intronic / edge breakpoints, evidence around thresholds, unknown genes) are parsed; records, denoted sequences, tallies and the callVariant peptides of the parser output are compared with the model.',
+    note='The three formats are taken to report the last retained donor base and the first retained acceptor base; REF of fusion records is not judged. End-to-end part uses the strict rule domain and <= 6 fusion records per case.')
 NOT_YET = {}
 
 def main():
